@@ -86,7 +86,9 @@ void QueueingRDMController::Pause() {
  */
 void QueueingRDMController::Resume() {
   m_active = true;
-  MaybeSendRDMRequest();
+  // A request or discovery may still be in flight, so go through the same
+  // checks as everything else rather than sending unconditionally.
+  TakeNextAction();
 }
 
 
